@@ -7,5 +7,5 @@ Extraction Language OCaml.
 Extraction "model.ml" Z.add N.add Nat.add Pos.add
   Model.pack Model.unpack Model.packsize Model.to_i64
   NumStrModel.format_int NumStrModel.parse_int NumStrModel.fmt_unsigned NumStrModel.fmt_signed
-  NumStrModel.c_unsigned NumStrModel.parse_digits
+  NumStrModel.c_unsigned NumStrModel.parse_digits NumStrModel.quote_int NumStrModel.lit_int
   QuoteModel.quote QuoteModel.lua_string_literal QuoteModel.is_print_tab.
